@@ -15,6 +15,11 @@ OBLIGATIONS += build_table_obls("c")
 from obl.envunix_common import wfile_obls
 OBLIGATIONS += [o for o in wfile_obls("f")]
 
+# d: MANIFEST switch ordering (real ldb_versions_apply): snapshot + edit written and synced before CURRENT is
+# switched and before the version is installed; failure installs nothing and removes the new MANIFEST
+from obl.vset_more import apply_obls
+OBLIGATIONS += apply_obls("d")
+
 META = {
     "level": "model_checking",
     "level_text": "Bounded model checking (CBMC) of the ordering obligations that make a synced write durable, on the real code of each unit with monitoring stubs at the env boundary: ldb_write returns success for a sync write only after the record was appended AND ldb_wfile_sync on the current log succeeded; a memtable flush hands the MANIFEST an edit naming the current log only after the level-0 table was built, and old logs/tables are unlinked only by the GC pass that runs after a successful MANIFEST apply, by the keep rules of C13; a latched error stops all deletion.",
